@@ -485,6 +485,17 @@ def r7_keys(ctx):
         apps = [n for n in g.nodes if not n.dup and any(isinstance(c.func, ast.Attribute) and c.func.attr in ('append', 'extend', 'insert') and is_name(c.func.value, lst) for c in node_calls(n))]
         ok = bool(apps)
         why = ''
+        if not apps:
+            # a single comprehension over the split blocks keeps their order as well
+            ldefs = [d for d in rd.defs if d.name == lst]
+            comp = ldefs[0].value if len(ldefs) == 1 and isinstance(ldefs[0].value, ast.AST) else None
+            if isinstance(comp, ast.Call) and is_name(comp.func, 'list') and len(comp.args) == 1:
+                comp = comp.args[0]
+            if isinstance(comp, (ast.ListComp, ast.GeneratorExp)):
+                ok = len(comp.generators) == 1 and is_name(comp.generators[0].iter, bname)
+                why = '' if ok else 'comprehension over %s' % [ctx.src(gn.iter) for gn in comp.generators]
+            else:
+                need(False, 'C07.R7: how `%s` is filled from the split blocks is not a recognised form' % lst)
         for a in apps:
             lf = [fr for fr in a.frames if fr.kind == 'loop']
             if len(lf) != 1 or not is_name(lf[0].stmt.iter, bname):
